@@ -2465,7 +2465,74 @@ pub fn c11() -> CheckDef {
 
 // ------------------------------------------------------------------------------------------ C19
 
+/// Late first acknowledgement (runs added later): a fast link (0.3-15 ms one way) that is dead
+/// for the first 100-1100 ms and lossy for a second after that, several small Reliable packets
+/// submitted a few milliseconds apart at the start (one frame each), frequent steps and extra flushes: the
+/// first flights are resent under the initial 150 ms estimate, the first RTT sample is small,
+/// entries scheduled under the old estimate wait in the resend queue; later the link is clean
+/// and the connection is dropped at the end.
+fn c19_gen_late_ack(seed: u64, run: u64) -> Plan {
+    let mut r = Rng::keyed(&[seed, run, 0xc19_1a7e]);
+    let mut plan = Plan::new("C19", "a_heap", seed, run);
+    plan.fate_seed = Some(crate::rng::key(&[seed, run, 0xfa7e]));
+    let setup = ASetup::default_like();
+    plan.endpoints = setup.endpoints();
+    plan.push(0, 0, Op::Create { ep: 0 });
+    plan.push(0, 1, Op::Create { ep: 1 });
+    let latency = r.log_range(300, 15_000);
+    let t_heal = r.range(100_000, 1_100_000);
+    let mut dead = clean_rule(latency);
+    dead.blackout = true;
+    match r.below(3) {
+        0 => plan.push(0, 2, Op::Link { from: None, to: None, rule: dead }),
+        1 => {
+            plan.push(0, 2, Op::Link { from: Some(0), to: Some(1), rule: clean_rule(latency) });
+            plan.push(0, 2, Op::Link { from: Some(1), to: Some(0), rule: dead });
+        }
+        _ => {
+            plan.push(0, 2, Op::Link { from: Some(0), to: Some(1), rule: dead });
+            plan.push(0, 2, Op::Link { from: Some(1), to: Some(0), rule: clean_rule(latency) });
+        }
+    }
+    let mut lossy = clean_rule(latency);
+    lossy.drop_p = *r.pick(&[0.2, 0.4, 0.6]);
+    plan.push(t_heal, 2, Op::Link { from: None, to: None, rule: lossy });
+    plan.push(t_heal + r.range(300_000, 1_500_000), 2, Op::Link { from: None, to: None, rule: clean_rule(latency) });
+    let horizon = t_heal + r.range(1_000_000, 4_000_000);
+    let mut tag = 0u32;
+    let mut t = r.below(5_000);
+    for _ in 0..r.range(2, 12) {
+        // small packets a few milliseconds apart: one frame each, all within the initial credit
+        plan.push(t, 0x4000_0000 + tag, Op::Send { ep: 0, to: None, ch: (tag % 3) as u8, mode: *r.pick(&[MODE_RELIABLE, MODE_RELIABLE, MODE_PERSISTENT]), len: r.range(12, 120) as u32, tag });
+        tag += 1;
+        t += r.range(1_000, 30_000);
+    }
+    // fresh packets right after the heal: their acknowledgements bring the first RTT sample while
+    // the early packets wait for a deadline that was set under the initial estimate
+    for _ in 0..r.range(1, 4) {
+        plan.push(t_heal + r.below(150_000), 0x4000_0000 + tag, Op::Send { ep: 0, to: None, ch: (tag % 3) as u8, mode: MODE_RELIABLE, len: r.range(100, 1400) as u32, tag });
+        tag += 1;
+    }
+    for ep in 0..2 {
+        let period = r.range(2_000, 25_000);
+        let mut ts = r.below(period);
+        while ts < horizon {
+            plan.push(ts, r.u32() | 1, Op::Step { ep });
+            if r.chance(0.5) {
+                plan.push(ts + r.below(period), r.u32() | 1, Op::Flush { ep });
+            }
+            ts += period;
+        }
+    }
+    plan.end_us = horizon;
+    plan.sort();
+    plan
+}
+
 fn c19_gen(seed: u64, run: u64, thorough: bool) -> Plan {
+    if run >= 8000 && run % 2 == 0 {
+        return c19_gen_late_ack(seed, run);
+    }
     let mut r = Rng::keyed(&[seed, run, 0xc19]);
     // short horizons: connections are dropped mid-transfer
     let horizon = r.range(1, if thorough { 30 } else { 12 }) * 1_000_000;
@@ -2606,7 +2673,7 @@ pub fn c19() -> CheckDef {
             what: "multi-fragment sizes that are not multiples of the fragment size in every mode; delivered, skipped, window advanced over partial packets (loss of Unreliable/Persistent fragments), connection dropped mid-transfer; a layout-checking allocator watches every deallocation, and after dropping every endpoint the bytes they allocated must all be back" }],
         panic_is_violation: no_panics,
         hang_is_violation: false,
-        quick_runs: 8000,
+        quick_runs: 9000,
         thorough_runs: 50_000,
         rule: "one case = one simulated run; distinct = distinct run digest; every run ends with a teardown check",
         real_code: REAL_A,
